@@ -171,6 +171,14 @@ func Select(all []*Module, prop string) (own []*Module, used []*Module) {
 				visit(um)
 			}
 		}
+		for _, r := range m.Spec.Relies {
+			n := r[0] + "." + r[1]
+			if um := byName[n]; um != nil && !in[n] {
+				in[n] = true
+				used = append(used, um)
+				visit(um)
+			}
+		}
 	}
 	for _, m := range own {
 		visit(m)
